@@ -42,6 +42,11 @@ type Assign struct {
 	Target Expr   // *Ident or *Member
 	V      Expr
 }
+// AssignPat: destructuring assignment expression `([o.p = d, x] = V)` / `({k: o[q] = d} = V)`.
+type AssignPat struct {
+	Target Pattern // *PArr or *PObj whose leaf targets are *PIdent or *PMember
+	V      Expr
+}
 type Update struct { // x++ / ++x
 	Name   string
 	Prefix bool
@@ -98,6 +103,13 @@ type Func struct {
 
 // patterns
 type PIdent struct{ Name string }
+
+// PMember: member target of a destructuring assignment: O.Name / O[Computed] (O is a local bound to an object)
+type PMember struct {
+	O        string
+	Name     string
+	Computed Expr
+}
 type PElem struct {
 	Target  Pattern
 	Default Expr
@@ -296,6 +308,12 @@ func (p *printer) expr(e Expr) {
 		p.w(" " + x.Op + " ")
 		p.expr(x.V)
 		p.w(")")
+	case *AssignPat:
+		p.w("(")
+		p.pattern(x.Target)
+		p.w(" = ")
+		p.expr(x.V)
+		p.w(")")
 	case *Update:
 		if x.Prefix {
 			p.w("(++" + x.Name + ")")
@@ -344,7 +362,13 @@ func (p *printer) expr(e Expr) {
 		}
 		p.w("`")
 	case *Member:
-		p.expr(x.O)
+		if _, isLit := x.O.(*Lit); isLit {
+			p.w("(")
+			p.expr(x.O)
+			p.w(")")
+		} else {
+			p.expr(x.O)
+		}
 		if x.Computed != nil {
 			p.w("[")
 			p.expr(x.Computed)
@@ -365,6 +389,15 @@ func (p *printer) pattern(pt Pattern) {
 	switch x := pt.(type) {
 	case *PIdent:
 		p.w(x.Name)
+	case *PMember:
+		p.w(x.O)
+		if x.Computed != nil {
+			p.w("[")
+			p.expr(x.Computed)
+			p.w("]")
+		} else {
+			p.w("." + x.Name)
+		}
 	case *PArr:
 		p.w("[")
 		for i, el := range x.Elems {
